@@ -334,9 +334,13 @@ impl TurnClient {
                 socket.send_to(data, *server).await?;
             }
             TurnTransport::Tcp { write, .. } => {
-                let mut frame = Vec::with_capacity(2 + data.len());
-                frame.extend_from_slice(&(data.len() as u16).to_be_bytes());
-                frame.extend_from_slice(data);
+                // RFC 5766 §2.1 / RFC 5389 §7.2.2: on a stream, STUN messages and
+                // ChannelData are sent back to back, delimited by their own headers;
+                // ChannelData is padded to a multiple of four bytes (§11.5).
+                let mut frame = data.to_vec();
+                if !data.is_empty() && data[0] & 0xC0 == 0x40 {
+                    frame.resize((data.len() + 3) & !3, 0);
+                }
                 write.lock().await.write_all(&frame).await?;
             }
         }
@@ -363,18 +367,23 @@ impl TurnClient {
                 Ok(len)
             }
             TurnTransport::Tcp { read, .. } => {
-                let mut header = [0u8; 2];
-                let mut stream = read.lock().await;
-                stream.read_exact(&mut header).await?;
-                let len = u16::from_be_bytes(header) as usize;
-                let mut offset = 0;
-                while offset < len {
-                    let read = stream.read(&mut buf[offset..len]).await?;
-                    if read == 0 {
-                        bail!("TURN TCP stream closed");
-                    }
-                    offset += read;
+                if buf.len() < 4 {
+                    bail!("TURN TCP receive buffer too small");
                 }
+                let mut stream = read.lock().await;
+                stream.read_exact(&mut buf[..4]).await?;
+                let body = u16::from_be_bytes([buf[2], buf[3]]) as usize;
+                let (len, padded) = if buf[0] & 0xC0 == 0 {
+                    // STUN message: 20-byte header + attributes
+                    (20 + body, 20 + body)
+                } else {
+                    // ChannelData: 4-byte header + data, padded to 4 on streams
+                    (4 + body, 4 + ((body + 3) & !3))
+                };
+                if padded > buf.len() {
+                    bail!("TURN TCP frame of {} bytes exceeds the receive buffer", padded);
+                }
+                stream.read_exact(&mut buf[4..padded]).await?;
                 Ok(len)
             }
         }
